@@ -1,40 +1,40 @@
 SPECIFICATION Spec
 CONSTANTS
   Users = {"u1", "u2"}
-  RDenoms = {"rw1"}
+  RDenoms = {"rw1", "rw2"}
   LP = "lpt-1"
   FeeDenom = "stake"
   RecordHist = FALSE
-  MaxH = 6
-  MaxStake = 2
-  MaxPools = 1
+  MaxH = 8
+  MaxStake = 1
+  MaxPools = 0
   Prec = 10
-  InitLP = 2
-  InitR = 20
+  InitLP = 1
+  InitR = 6
   Fee = 5
   TaxNum = 2
   TaxDen = 5
-  RewardTotals = {7}
-  RewardRates = {2, 3}
-  MaxStart = 1
-  TopUps = {3}
+  RewardTotals = {}
+  RewardRates = {2}
+  MaxStart = 0
+  TopUps = {}
   Donations = {}
-  Creators = {"u1"}
-  Proposers = {}
-  GovOn = FALSE
-  InitCP = 0
-  MaxProps = 0
-  CPTotals = {}
-  Deposits = {}
-  GovMinDep = 0
-  GovThr = 0
-  GovDP = 0
-  GovVP = 0
-  CancelNum = 0
-  CancelDen = 1
+  Creators = {}
+  Proposers = {"g1"}
+  GovOn = TRUE
+  InitCP = 8
+  MaxProps = 2
+  CPTotals = {4}
+  Deposits = {2, 4}
+  GovMinDep = 4
+  GovThr = 2
+  GovDP = 2
+  GovVP = 2
+  CancelNum = 1
+  CancelDen = 2
   BurnPre = FALSE
   BurnQ = FALSE
-  BurnV = FALSE
+  BurnV = TRUE
 VIEW View
 INVARIANTS
   Inv_C12_Farm_Accepted
@@ -45,7 +45,11 @@ INVARIANTS
   Inv_C06_ProRata
   Inv_C13_QueueSound
   Inv_C13_QueueComplete
+  Inv_X05_EscrowConservation
+  Inv_X05_DepositsBacked
   Inv_X05_SupplyClosed
+  Inv_X12_Farm_Escrow
+  Inv_X06_OneOutcome_ModCancel
 PROPERTIES
   Act_Gh_C06_Budget
   Act_Gh_C06_Funded
@@ -63,7 +67,14 @@ PROPERTIES
   Act_C06_TouchAccrues
   Act_C06_RefundOnce
   Act_C13_OnceOnTime
+  Act_Gh_X06_OneOutcome_ModCancel
+  Act_X05_CommunityPool
+  Act_X05_ProposerFrame
+  Act_X06_ProposalRecorded
+  Act_X06_GovPool
+  Act_X06_VoteDecides
+  Act_X12_Farm_RoundTrip
+  Act_X06_CPNoPanic
   Act_X06_AdjustNoPanic
   Act_X06_AdjustGuard
-  Act_X05_CommunityPool
 CHECK_DEADLOCK FALSE
